@@ -380,6 +380,17 @@ theorem C16_events_no_panic (env : Env) (ops : List VOp) : (runV env View.empty 
       rw [this, applyV_crashed env v op hs]
   exact this ops View.empty SInv_empty
 
+/-- `C16_view_no_stale` (the oracle `evnostale` of the differential run): after EVERY history of events, refreshes,
+connects, removals and in-place address updates the by-address index of the session's ring has no stale entry — the
+answer of the oracle is "ok" -/
+theorem C16_view_no_stale (env : Env) (ops : List VOp) (n : Nat) : (runV env View.empty ops).ring.staleAddrs n = [] := by
+  have : ∀ (ops : List VOp) (v : View), SInv v.ring → SInv (runV env v ops).ring := by
+    intro ops
+    induction ops with
+    | nil => intro v hs; exact hs
+    | cons op t ih => intro v hs; exact ih _ (sinv_applyV env v op hs)
+  exact staleAddrs_nil_of_SInv _ (this ops View.empty SInv_empty) n
+
 /-- non-vacuity: a history with a batch for known, unknown and removed addresses, a refresh that replaces and removes
 hosts, a connect and a connect failure, and the history of KF-C16-5: the stored host's node address is changed in
 place (7 → 17), the host removed, a DOWN and an UP for its old and new address arrive -/
